@@ -33,8 +33,96 @@ def falsy_fallback(e: ast.AST):
     return None
 
 
+def hint_term(t):
+    """The name hint of an argument term: kwargs['x'] / kwargs.get('x') / self._x / a parameter x."""
+    from sa.terms import App, Const, Sym
+    if isinstance(t, App) and t.op == "idx" and isinstance(t.args[1], Const) and isinstance(t.args[1].v, str):
+        return t.args[1].v
+    if isinstance(t, App) and t.op == "meth:get" and len(t.args) >= 2 and isinstance(t.args[1], Const) and isinstance(t.args[1].v, str):
+        return t.args[1].v
+    if isinstance(t, App) and t.op.startswith("attr:") and len(t.args) == 1 and isinstance(t.args[0], Sym):
+        return t.op[5:].lstrip("_")
+    if isinstance(t, Sym) and t.name.startswith("param:"):
+        return t.name[6:]
+    return None
+
+
+def check_function_terms(ctx, rid, fi, seen):
+    """The same belief rule on the calls the abstract evaluation of ``fi`` performs (arguments reach the callee through tables,
+    unpacked lists, helper functions ...).  `seen`: bindings already counted by the syntactic pass."""
+    from sa.absint import Evaluator, all_effects
+    from sa.terms import App, Const, Ref, Sym
+    from sa.index import AnalysisError
+    R = ctx.report
+    repo = ctx.repo
+    n = 0
+    try:
+        outs = Evaluator(repo, inline_depth=0).outcomes(fi)
+    except AnalysisError:
+        return 0
+    calls = []
+    for o in outs:
+        for e in all_effects(o.effects):
+            if isinstance(e, App) and e.op == "eff:call" and isinstance(e.args[0], App) and e.args[0] not in calls:
+                calls.append(e.args[0])
+    for c in calls:
+        if c.op == "call" and isinstance(c.args[0], Ref) and c.args[0].kind == "func":
+            target, rest = c.args[0].obj, list(c.args[1:])
+            params = target.params()
+            if target.kind in ("method", "classmethod", "property") and rest:
+                first = rest[0]
+                fcls = first.obj if isinstance(first, Ref) and first.kind == "class" else (
+                    first.args[0].obj if isinstance(first, App) and first.op == "new" and isinstance(first.args[0], Ref) else None)
+                bound = (isinstance(first, Sym) and first.name in ("param:self", "param:cls")) or (
+                    fcls is not None and target.cls is not None and target.cls in repo.mro(fcls)) or target.kind == "classmethod"
+                if bound:
+                    rest, params = rest[1:], params[1:]
+        elif c.op == "new" and isinstance(c.args[0], Ref) and c.args[0].kind == "class":
+            target = repo.lookup_method(c.args[0].obj, "__init__")
+            if target is None:
+                continue
+            rest, params = [a for a in c.args[1:] if not (isinstance(a, Const) and isinstance(a.v, tuple) and a.v[:1] == ("site",))], target.params()[1:]
+        else:
+            continue
+        kwonly = [a.arg for a in target.node.args.kwonlyargs]
+        allp = set(params) | set(kwonly)
+        pos = [a for a in rest if not (isinstance(a, App) and a.op in ("kw", "starkw", "star"))]
+        for i, a in enumerate(pos):
+            h = hint_term(a)
+            if h is None or h not in allp or i >= len(params):
+                continue
+            key = (target.qualname, f"{i}:{h}")
+            if key in seen:
+                continue
+            seen.add(key)
+            n += 1
+            R.check(rid, params[i] == h, f"{ctx.fq(fi)} -> {target.qualname}: argument {h!r} at position {i}", mod=fi.module, node=c.node or fi.node,
+                    function=ctx.fq(fi), expected=f"the value of {h!r} bound to parameter {h!r}", found=f"bound to parameter {params[i]!r} of {target.qualname}",
+                    key_extra=f"{i}:{h}")
+        for a in rest:
+            if isinstance(a, App) and a.op == "kw" and isinstance(a.args[0], Const):
+                h = hint_term(a.args[1])
+                if h is None or h not in allp:
+                    continue
+                key = (target.qualname, f"{a.args[0].v}:{h}")
+                if key in seen:
+                    continue
+                seen.add(key)
+                n += 1
+                R.check(rid, a.args[0].v == h, f"{ctx.fq(fi)} -> {target.qualname}: {a.args[0].v}=<{h}>", mod=fi.module, node=c.node or fi.node,
+                        function=ctx.fq(fi), expected=f"the value of {h!r} bound to parameter {h!r}", found=f"bound to parameter {a.args[0].v!r}",
+                        key_extra=f"{a.args[0].v}:{h}")
+    return n
+
+
 def check_function(ctx, rid, fi, cg=None):
     """Check every resolvable call in ``fi``. Returns number of bindings checked."""
+    seen = set()
+    n = _check_function_ast(ctx, rid, fi, seen)
+    return n + check_function_terms(ctx, rid, fi, seen)
+
+
+def _check_function_ast(ctx, rid, fi, seen):
     R = ctx.report
     repo = ctx.repo
     n = 0
@@ -73,6 +161,7 @@ def check_function(ctx, rid, fi, cg=None):
             if h is None or h not in allp or i >= len(params):
                 continue
             n += 1
+            seen.add((target.qualname, f"{i}:{h}"))
             R.check(rid, params[i] == h, f"{ctx.fq(fi)} -> {target.qualname}: argument {ast.unparse(a)[:40]} at position {i}",
                     mod=fi.module, node=node, function=ctx.fq(fi),
                     expected=f"{ast.unparse(a)[:40]} bound to parameter {h!r}",
@@ -84,6 +173,7 @@ def check_function(ctx, rid, fi, cg=None):
             if h is None or h not in allp:
                 continue
             n += 1
+            seen.add((target.qualname, f"{k.arg}:{h}"))
             R.check(rid, k.arg == h, f"{ctx.fq(fi)} -> {target.qualname}: {k.arg}={ast.unparse(k.value)[:40]}",
                     mod=fi.module, node=node, function=ctx.fq(fi),
                     expected=f"{ast.unparse(k.value)[:40]} bound to parameter {h!r}",
@@ -101,5 +191,5 @@ def check_module_main_block(ctx, rid, mod):
                                                                        defaults=[]), body=s.body, decorator_list=[],
                                    lineno=s.lineno, col_offset=0)
             fi = FuncInfo("__main__", "__main__", fake, mod)
-            n += check_function(ctx, rid, fi)
+            n += _check_function_ast(ctx, rid, fi, set())
     return n
